@@ -106,7 +106,7 @@ def gen_targets(cs, quick):
                 return a
             return single if full else single_red
         # one name: every name form
-        for n in ['a', 'g:p', 'g:*', 'h:', ':x', 'a:a', 'all:x']:
+        for n in ['a', 'g:p', 'g:*', 'h:', ':x', 'a:a', 'all:x', 'firewall']:   # `all` only as a whole word
             for ans in answers_for(n, True):
                 cs.add(pre + n, [up_ok(), ans], 'targets', targets=(act, [n], [ans]))
         # two names: all codes x all codes
@@ -383,6 +383,13 @@ def gen_server_states(cs, quick):
         ('unreachable-reset', [['sock', 104, 'Connection reset by peer']]),
         ('wrong-api', [['str', '2.0']]),
         ('wrong-api-empty', [['str', '']]),
+        ('wrong-api-newer', [['str', '3.1']]),
+        ('wrong-api-newer-major', [['str', '4.0']]),
+        ('wrong-api-newer-30', [['str', '30.0']]),
+        ('wrong-api-longer', [['str', '3.0.1']]),
+        ('wrong-api-shorter', [['str', '3']]),
+        ('wrong-api-nonnumeric', [['str', 'abc']]),
+        ('wrong-api-upper', [['str', 'Z']]),
         ('no-namespace', [['fault', 1, 'UNKNOWN_METHOD']]),
         ('shutting-down', [['fault', 6, 'SHUTDOWN_STATE']]),
         ('fault-unknown-code', [['fault', 12345, 'who knows']]),
@@ -540,6 +547,7 @@ def run_cases(chk, cases, wd):
         judge_silent(chk, c, r, served, lines, meta, F)
         judge_update(chk, c, r, served, lines, meta, F)
         judge_simple(chk, c, r, served, lines, meta, F)
+        judge_version(chk, c, r, served, lines, meta, F)
         chk._c20_known_names = getattr(chk, '_c20_known_names', 0) + judge_names(chk, c, r, served, lines, meta, F)
         terms.append(term)
         metas.append(meta)
@@ -702,6 +710,33 @@ def judge_names(chk, c, r, served, lines, meta, F):
     return 0
 
 
+UPCHECK_ACTIONS = ('start', 'stop', 'restart', 'signal', 'clear', 'status', 'pid', 'tail', 'maintail', 'version', 'fg')
+
+
+def judge_version(chk, c, r, served, lines, meta, F):
+    """wrong-API server state: the first answer of an action that begins with the version check is a
+    version string other than the client's API version - older, newer, longer, non-numeric or empty:
+    exactly the 'Sorry ...' line naming both versions, no further request, exit status 5 (status: 4)"""
+    words = c['line'].split()
+    used = served[:len(r['served'])]
+    if not words or words[0] not in UPCHECK_ACTIONS or c['line'].strip() != ' '.join(words) or not used:
+        return
+    if words[0] == 'version' and len(words) > 1:
+        return
+    first = used[0]
+    api = up_ok()[1]
+    if first[0] != 'str' or first[1] == api:
+        return
+    exp = ['Sorry, this version of supervisorctl expects to talk to a server with API version %s, but the remote '
+           'version is %s.' % (api, first[1])]
+    texts = [l[1] for l in lines if l[0] == 'text']
+    exp_status = 4 if words[0] == 'status' else 5
+    if texts != exp or len(lines) != 1 or len(r['calls']) != 1 or r['status'] != exp_status:
+        _direct(chk, dict(meta, kind='server reporting API version %r (client expects %r): expected only the "Sorry, this '
+                          'version of supervisorctl expects ..." line, no further request and exit status %d'
+                          % (first[1], api, exp_status), expected_lines=exp, server_api_version=first[1]))
+
+
 def judge_simple(chk, c, r, served, lines, meta, F):
     """version / shutdown / reload / reread / avail on a successful answer, and malformed command lines"""
     line = c['line'].strip()
@@ -840,17 +875,38 @@ def judge_main(chk):
         ('tail -5 a stderr', [up, ['fault', F['NO_FILE'], 'x']]), ('maintail -9', [up, ['fault', F['FAILED'], 'x']]),
         ('maintail', [['proto', 401, 'Unauthorized']]), ('foo', []), ('open ftp://x', []),
     ]
+    # an action on the command line together with -i / --interactive (stdin at EOF): the unchanged main()
+    # tests options.args first, so the action runs exactly as in one-shot mode and main() exits with its status
+    with_i = [('-i', 'stop BAD_NAME', [up, ['fault', F['BAD_NAME'], 'BAD_NAME: BAD_NAME']]),
+              ('-i', 'bogusaction', []), ('--interactive', 'start a', [up, ['fault', F['SPAWN_ERROR'], 'x']]),
+              ('-i', 'status', [up, info]), ('-i', 'status zz', [up, info]), ('--interactive', 'pid a b', [up, ['info', ['a', 'a', 20, 'R', '', 0]],
+                                                                                                           ['fault', F['BAD_NAME'], 'x']]),
+              ('-i', 'start a b', [up, ['unit'], ['unit']]), ('-i', 'status', [['sock', 111, 'Connection refused']]),
+              ('-i', 'tail -0 a', [up, ['fault', F['NO_FILE'], 'x']]), ('--interactive', 'add a', [['fault', F['BAD_NAME'], 'x']]),
+              ('-i', 'version', [['str', '4.0']])]
     n = 0
-    for line, script in pairs:
+    main_terms, main_metas = [], []
+    for flag, line, script in [(None, l, s) for l, s in pairs] + with_i:
         a = H.run_real(line, script)
-        b = H.run_main(line.split(), script)
+        b = H.run_main(([flag] if flag else []) + line.split(), script, stdin_text='')
         n += 1
-        chk.dist('family:main')
+        chk.dist('family:main' if flag is None else 'family:main-i-with-action')
+        try:
+            main_terms.append('(mkmain %s %s %s %s %s %s)' % (
+                H.cs(H.DEFAULT_URL), H.clist(H.cs(w) for w in line.split()), H.clist(H.coq_resp(x) for x in script),
+                H.clist(H.coq_line(l) for l in H.canon_lines(b['msgs'])),
+                H.cz(b['exit_code'] if type(b['exit_code']) is int else -1), H.clist(H.coq_call(x) for x in b['calls'])))
+            main_metas.append({'line': ((flag + ' ') if flag else '') + line, 'script': script, 'printed': b['msgs'],
+                               'exit_code': b['exit_code'], 'calls': b['calls']})
+        except ValueError:
+            pass
         ok = (b['escaped'] is None and a['escaped'] is None and b['msgs'] == a['msgs'] and b['calls'] == a['calls']
               and type(b['exit_code']) is int and b['exit_code'] == a['status'])
         if not ok:
-            _direct(chk, {'kind': 'one-shot mode: main() does not exit with the status / print the lines of '
-                                  'Controller.onecmd for the same command', 'line': line, 'script': script,
+            _direct(chk, {'kind': 'main() with an action on the command line%s does not run the action once and exit with '
+                                  'Controller.exitstatus (lines / status / calls of onecmd for the same command)'
+                                  % (' and %s' % flag if flag else ''),
+                          'line': ((flag + ' ') if flag else '') + line, 'script': script,
                           'onecmd': {'printed': a['msgs'], 'exitstatus': a['status'], 'calls': a['calls']},
                           'main': {'printed': b['msgs'], 'exit_code': b['exit_code'], 'calls': b['calls'],
                                    'escaped': b['escaped']}})
@@ -888,6 +944,7 @@ def judge_main(chk):
             _direct(chk, {'kind': 'interactive mode: the shell does not print what onecmd prints for the same commands, or '
                                   'does not exit with status 0', 'line': typed, 'script': script,
                           'printed': out.msgs, 'exit_code': code, 'expected': a['msgs'] + b['msgs'] + ['\n']})
+    chk._c20_main = (main_terms, main_metas)
     return n
 
 
@@ -1003,6 +1060,14 @@ def _run(chk, wd, proved, only):
     bad, errs = H.compare(vlib, IMPORTS, 'ctl_case', 'check_case', terms, wd, 'corr', PREAMBLE)
     for e in errs:
         chk.violation({'kind': 'model evaluation failed', 'error': e}, nofail=True)
+    if n_main:
+        mt, mm = chk._c20_main
+        mb, me = H.compare(vlib, IMPORTS, 'main_case', 'check_main_case', mt, wd, 'main', PREAMBLE)
+        for e in me:
+            chk.violation({'kind': 'model evaluation failed (main)', 'error': e}, nofail=True)
+        for i in mb[:3]:
+            chk.violation(dict(mm[i], kind='main(): model (Ctl.main_run) and implementation disagree'),
+                          nofail=not direct_failures(chk))
     # 2. specification monitors on the implementation's own output
     rejected, n_mon = run_monitors(chk, wd, mons)
     shown = 0
